@@ -31,7 +31,7 @@ COMPONENTS = {
     "stub": ["GPU hardware (Numba CUDASIM)"],
 }
 ASSUMPTIONS = [
-    "canonical run = C-contiguous float64 copy with the faulty samples set to 0.0 in the same world and thread configuration: equality is bitwise",
+    "canonical run = C-contiguous float64 copy with the faulty samples set to 0.0 in the same world and thread configuration: equality is bitwise in the NumPy and simulated worlds; in the real-numba world the four statistics may differ within twice the rounding budget (compiled fastmath kernels are not bit-reproducible across array flavours, cf. the recorded C14 finding)",
     "finiteness is demanded for every finite input, including amplitudes up to 1e300 whose squares overflow (the library's documented clean-up turns overflowed statistics into 0); dB views and error bars at zero coherence are not demanded",
     "N x 1 / 1 x N / 2 x 2 inputs are not generated (not listed by the statement / ambiguous)",
 ]
@@ -354,7 +354,7 @@ def execute(sc, out):
                     elif kind == "compute":
                         r = ans[-1].compute()
                         raw = SS.raw_fields(r)
-                        d = SS.diff_fields(raw, can_raw, SS.RAW_CMP)
+                        d = _diff_vs_canonical(raw, can_raw, world, canon, cfg, out)
                         if d is not None:
                             cls = "result_differs_from_zero_filled" if nfault else "result_depends_on_layout"
                             out.violate(cls, f"world={world} field={d}", f"layout={sc['layout']} dtype={sc['dtype']} faults={nfault}: compute() differs from the canonical zero-filled float64 run in {d}")
@@ -368,7 +368,7 @@ def execute(sc, out):
                         with sess.serial(), plain.installed():
                             rc = SC.build_analyzer(canon.copy(), cfg).compute_single_bin(f, L=L)
                         raw, craw = SS.raw_fields(r), SS.raw_fields(rc)
-                        d = SS.diff_fields(raw, craw, SS.RAW_CMP)
+                        d = _diff_vs_canonical(raw, craw, world, canon, cfg, out)
                         if d is not None:
                             cls = "result_differs_from_zero_filled" if nfault else "result_depends_on_layout"
                             out.violate(cls, f"world={world} field={d}", f"layout={sc['layout']} dtype={sc['dtype']} faults={nfault}: compute_single_bin differs from the canonical run in {d}")
@@ -392,6 +392,35 @@ def execute(sc, out):
         out.count(k, v)
     out.count("world_" + world)
     out.summary = {"world": world, "layout": sc["layout"], "dtype": sc["dtype"], "faults": nfault, "ops": [o[0] for o in sc["ops"]], "nf": nf}
+
+
+def _diff_vs_canonical(raw, can_raw, world, canon, cfg, out):
+    """First field in which a result differs from the canonical run.  Bitwise everywhere, except that in the
+    real-numba world the four statistics may differ within twice the rounding budget of the recurrence: the compiled
+    fastmath kernels are not bit-reproducible across array flavours / thread configurations (recorded C14 finding)."""
+    d = SS.diff_fields(raw, can_raw, SS.RAW_CMP)
+    if d is None or world != "real-numba" or d not in ("XX", "YY", "XY", "M2"):
+        return d
+    for nm in [n for n in SS.RAW_CMP if n not in ("XX", "YY", "XY", "M2")]:
+        if not SS.eq(raw[nm], can_raw[nm]):
+            return nm
+    xs = (canon[0], canon[1]) if canon.ndim == 2 else (canon, None)
+    for j in range(len(raw["f"])):
+        a4 = [raw[nm][j] for nm in ("XX", "YY", "XY", "M2")]
+        b4 = [can_raw[nm][j] for nm in ("XX", "YY", "XY", "M2")]
+        if all((a == b) or (a != a and b != b) for a, b in zip(a4, b4)):
+            continue
+        Lj = int(raw["L"][j])
+        wj = SC.reference_window(cfg["win"], cfg["psll"], Lj)
+        RM.ref_stats(xs[0], xs[1], np.asarray(raw["D"][j]), Lj, wj, 2 * np.pi * float(raw["f"][j]) / cfg["fs"], cfg["order"])
+        tXX, tYY, tmu, _, tM2 = RM.ref_stats.last_tols
+        for nm, a, b, tol in zip(("XX", "YY", "XY", "M2"), a4, b4, (tXX, tYY, tmu, tM2)):
+            if a == b or (a != a and b != b):
+                continue
+            if not abs(a - b) <= 2.0 * tol:
+                return nm
+    out.count("real_numba_ulp_difference_within_budget")
+    return None
 
 
 def _check_finite(res, sc, out, where):
